@@ -94,12 +94,12 @@ theorem ackBlock_heap (s u : Tcb) (seg : Hdr) (r : Option ProcessSegmentResult)
       repeat' (split at hk)
       all_goals (cases hk; exact hv)
     case LastAck =>
-      dsimp only at h
-      split at h <;> (cases h; rfl)
+      obtain ⟨v, r0, _, hv, hk⟩ := afterAck_inv' _ _ _ _ _ h
+      repeat' (split at hk)
+      all_goals (cases hk; exact hv)
     case TimeWait =>
-      rw [Tcb.enqueueThen_eq] at h
       cases h
-      rw [(Tcb.enqueueBuilt_frame _ _).2.2.2.1]
+      rfl
 
 theorem trk_ackBlock (s u : Tcb) (seg : Hdr) (r : Option ProcessSegmentResult)
     (h : Tcb.ackBlock s seg = .ok (u, r)) : Trk s u := by
